@@ -1,11 +1,130 @@
-"""Hand-written directed scenarios per property (guarantee that each deciding monitor is reached)."""
+"""Hand-written directed scenarios. Every trace-based check runs all of them (subject to its scope predicate), so each
+deciding monitor is reached on every run, and the reproducers of repaired defects stay as ordinary scenarios that must pass.
+"""
+import copy
+
+INF = 'inf'
+
+
+def det(v): return {'d': 'det', 'v': v}
+def seq(*s): return {'d': 'seq', 's': list(s)}
+def I(c): return {'kind': 'int', 'c': c}
+def SCH(nums, ends, preempt=False, offset=0.0): return {'kind': 'schedule', 'nums': nums, 'ends': ends, 'preempt': preempt, 'offset': offset}
+def SLOT(slots, sizes, cap=False, preempt=False, offset=0.0): return {'kind': 'slotted', 'slots': slots, 'sizes': sizes, 'capacitated': cap, 'preempt': preempt, 'offset': offset}
+
+
+def mk(name, servers, arrivals, services, routing, classes=None, qcap=None, disciplines=None, node_class=None, T=50.0, seed=1, **kw):
+    n = len(servers)
+    classes = classes or ['C0']
+    nodes = []
+    for i in range(n):
+        nodes.append({'node_class': (node_class or ['Node'] * n)[i], 'ps_threshold': kw.get('ps_thresholds', [1] * n)[i], 'servers': servers[i],
+                      'qcap': (qcap or [INF] * n)[i], 'discipline': (disciplines or ['FIFO'] * n)[i], 'spf': kw.get('spf', [None] * n)[i]})
+    def per_class(x):
+        return x if isinstance(x, dict) else {classes[0]: x}
+    spec = {'name': name, 'seed': seed, 'n': n, 'classes': classes, 'lattice': True, 'nodes': nodes,
+            'priorities': kw.get('priorities'), 'prio_preempt': kw.get('prio_preempt'),
+            'arrivals': per_class(arrivals), 'services': per_class(services),
+            'batching': kw.get('batching'), 'reneging': kw.get('reneging'), 'baulking': kw.get('baulking'),
+            'routing': routing if isinstance(routing, dict) and all(k in classes for k in routing) else {c: routing for c in classes},
+            'ccm': kw.get('ccm'), 'cct': kw.get('cct'), 'syscap': kw.get('syscap'), 'exact': kw.get('exact', False),
+            'tracker': kw.get('tracker'), 'run': kw.get('run', {'method': 'time', 'T': T}), 'tie': kw.get('tie', 'native'), 'profile': 'pinned'}
+    return spec
+
+
+def TM(M): return {'r': 'tm', 'M': M}
+def NR(*routers): return {'r': 'nr', 'routers': list(routers)}
+
+
+ALL = [
+    # overtime service ends during a zero-server shift and is blocked (repaired K4; also K15 overtime accounting)
+    mk('overtime_blocked_zero_shift', [SCH([1, 0], [5, 100]), I(1)], [seq(1, 1000), seq(0.5, 1000)], [det(7), det(20)], TM([[0.0, 1.0], [0.0, 0.0]]),
+       qcap=[INF, 0], tracker='NaiveBlocking'),
+    mk('overtime_blocked_released_by_other_node', [SCH([1, 0], [5, 100]), I(1)], [seq(1, 1000), seq(0.5, 1000)], [det(3), det(20)], TM([[0.0, 1.0], [0.0, 0.0]]),
+       qcap=[INF, 0], tracker='MatrixBlocking'),
+    # pre-empted customer with expired patience (repaired K7)
+    mk('preempted_with_expired_patience', [I(1)], {'A': [seq(4.0, 1000)], 'B': [seq(1.0, 1000)]}, {'A': [det(3)], 'B': [det(6)]}, TM([[0.0]]), classes=['A', 'B'],
+       priorities={'A': 0, 'B': 1}, prio_preempt=['resume'], reneging={'A': [None], 'B': [det(2.0)]}, T=30.0),
+    # renege while a class change is pending (repaired K13)
+    mk('renege_with_pending_class_change', [I(1)], {'A': [seq(1.0, 1.0, 1000)], 'B': [None]}, {'A': [det(10)], 'B': [det(10)]}, TM([[0.0]]), classes=['A', 'B'],
+       reneging={'A': [det(3.0)], 'B': [None]}, cct={'A': {'B': det(5.0)}}, tracker='NodeClassMatrix', T=20.0),
+    # class change after service, then renege / class tracker at the next node (repaired K6, K11)
+    mk('class_change_then_renege_next_node', [I(1), I(1)], {'A': [det(1.0), None], 'B': [None, None]}, {'A': [det(0.5), det(10)], 'B': [det(0.5), det(10)]},
+       TM([[0.0, 1.0], [0.0, 0.0]]), classes=['A', 'B'], priorities={'A': 0, 'B': 1},
+       ccm=[{'A': {'A': 0.0, 'B': 1.0}, 'B': {'A': 0.0, 'B': 1.0}}, {'A': {'A': 1.0, 'B': 0.0}, 'B': {'A': 0.0, 'B': 1.0}}],
+       reneging={'A': [None, det(3.0)], 'B': [None, det(3.0)]}, tracker='NodeClassMatrix', T=20.0),
+    mk('class_change_with_blocking_tracker', [I(1), I(1)], {'A': [det(1.0), None], 'B': [None, None]}, {'A': [det(0.5), det(1.75)], 'B': [det(0.5), det(1.75)]},
+       TM([[0.0, 1.0], [0.0, 0.0]]), classes=['A', 'B'], qcap=[INF, 0],
+       ccm=[{'A': {'A': 0.0, 'B': 1.0}, 'B': {'A': 0.0, 'B': 1.0}}, {'A': {'A': 1.0, 'B': 0.0}, 'B': {'A': 0.0, 'B': 1.0}}], tracker='NodeClassMatrix', T=20.0),
+    # priority pre-emption while the only other customer in service is blocked (repaired K3)
+    mk('preempt_with_blocked_in_service', [I(1), I(1)], {'A': [seq(3.0, 1000), None], 'B': [seq(1.0, 1000), seq(0.5, 1000)]},
+       {'A': [det(1), det(1)], 'B': [det(1), det(10)]}, TM([[0.0, 1.0], [0.0, 0.0]]), classes=['A', 'B'], qcap=[INF, 0],
+       priorities={'A': 0, 'B': 1}, prio_preempt=['resume', False], T=40.0),
+    # processor sharing with a blocked customer (repaired K20)
+    mk('ps_with_blocked_customer', [{'kind': 'inf'}, I(1)], [seq(1.0, 2.0, 1000), seq(0.5, 1000)], [det(1), det(10)], TM([[0.0, 1.0], [0.0, 0.0]]),
+       qcap=[INF, 0], node_class=['PS', 'Node'], T=40.0),
+    # priority pre-emption next to an overtime server (repaired K24)
+    mk('preempt_with_overtime_server', [SCH([2, 1], [5, 100])], {'A': [seq(6.0, 0.5, 1000)], 'B': [seq(1.0, 1.0, 1000)]}, {'A': [det(2)], 'B': [det(10)]}, TM([[0.0]]),
+       classes=['A', 'B'], priorities={'A': 0, 'B': 1}, prio_preempt=['resume'], T=90.0),
+    # overtime across two shift changes (repaired K25)
+    mk('overtime_across_two_shift_changes', [SCH([1, 0, 1], [3, 6, 100])], [seq(1.0, 1000)], [det(6.5)], TM([[0.0]]), T=50.0),
+    # previously pre-empted customer pre-empts in turn after a class change while waiting (repaired K26, K27)
+    mk('preempted_then_preempts_after_class_change', [I(2)], {'A': [seq(2.0, 1000)], 'B': [seq(1.5, 1000)], 'C': [seq(1.0, 1000)]},
+       {'A': [det(10)], 'B': [seq(4.0, 7.0, 7.0)], 'C': [det(20)]}, TM([[0.0]]), classes=['A', 'B', 'C'],
+       priorities={'A': 0, 'B': 1, 'C': 1}, prio_preempt=['restart'], cct={'B': {'A': det(3.0)}}, T=100.0),
+    mk('class_change_preempt_keeps_queue_order', [SCH([1, 0, 1], [5, 8, 100], preempt='resume')], {'H': [seq(6.0, 1000)], 'L': [seq(1.0, 1000)], 'X': [seq(7.0, 1000)]},
+       {'H': [det(3)], 'L': [det(10)], 'X': [det(3)]}, TM([[0.0]]), classes=['H', 'L', 'X'], priorities={'H': 0, 'L': 1, 'X': 1}, prio_preempt=['resume'],
+       cct={'X': {'H': det(2.0)}}, T=60.0),
+    # first arrival at time 0 at a slotted node (repaired K28)
+    mk('arrival_at_time_zero_slotted', [SLOT([1.0, 2.0], [1, 1])], [seq(0.0, 2.0, 1000)], [det(0.5)], TM([[0.0]]), T=10.0),
+    mk('arrival_at_time_zero_plain', [I(1)], [seq(0.0, 2.0, 3.0)], [det(1.5)], TM([[0.5]]), T=30.0),
+    # class-change-time distributions on two nodes (repaired K1); zero-server shift + priority pre-emption + class change (repaired K22)
+    mk('class_change_time_two_nodes', [I(1), I(1)], {'A': [det(1.0), det(1.5)], 'B': [det(2.0), None]}, {'A': [det(0.75), det(0.75)], 'B': [det(0.75), det(0.75)]},
+       TM([[0.0, 0.5], [0.0, 0.0]]), classes=['A', 'B'], cct={'A': {'B': det(1.0)}}, T=20.0),
+    mk('class_change_in_zero_server_shift', [SCH([0, 1], [10, 20])], {'A': [None], 'B': [seq(1.0, 1000)]}, {'A': [det(3)], 'B': [det(6)]}, TM([[0.0]]), classes=['A', 'B'],
+       priorities={'A': 0, 'B': 1}, prio_preempt=['resume'], cct={'B': {'A': det(2.0)}}, T=30.0),
+    # reroute pre-emption feeding a join-shortest-queue decision (repaired K16a), PS node as JSQ destination (repaired K16b)
+    mk('reroute_then_jsq', [I(1), I(1), I(1)], {'A': [None, seq(4.5, 1000), None], 'B': [det(1.0), seq(3.0, 1000), None]},
+       {'A': [det(0.25), det(5), det(3)], 'B': [det(0.25), det(5), det(3)]},
+       {'A': NR({'k': 'jsq', 'dests': [2, 3], 'tie': 'order'}, {'k': 'leave'}, {'k': 'leave'}), 'B': NR({'k': 'jsq', 'dests': [2, 3], 'tie': 'order'}, {'k': 'direct', 'to': 3}, {'k': 'leave'})},
+       classes=['A', 'B'], priorities={'A': 0, 'B': 1}, prio_preempt=[False, 'reroute', False], T=30.0),
+    mk('jsq_into_ps_nodes', [I(1), I(2), I(2)], [det(0.5), None, None], [det(0.1), det(1.3), det(1.7)],
+       NR({'k': 'jsq', 'dests': [2, 3], 'tie': 'order'}, {'k': 'leave'}, {'k': 'leave'}), node_class=['Node', 'PS', 'PS'], T=30.0),
+    # two-node blocking ring, multi-server, deterministic (Type I blocking, FIFO unblocking)
+    mk('blocking_ring', [I(2), I(1), I(1)], [det(0.5), None, None], [det(0.4), seq(1.5, 2.5, 0.5), seq(2.0, 1.0)],
+       TM([[0.0, 0.5, 0.5], [0.25, 0.0, 0.25], [0.0, 0.5, 0.0]]), qcap=[2, 1, 0], tracker='MatrixBlocking', T=60.0, seed=7),
+    mk('blocking_tandem_priorities', [I(1), I(1), I(1)], {'A': [det(1.0), det(1.5), None], 'B': [det(1.25), None, None]}, {'A': [det(0.5), det(0.5), det(2.0)], 'B': [det(0.5), det(0.5), det(2.5)]},
+       TM([[0.0, 0.0, 1.0], [0.0, 0.0, 1.0], [0.0, 0.0, 0.0]]), classes=['A', 'B'], priorities={'A': 0, 'B': 1}, qcap=[1, 1, 1], tracker='NaiveBlocking', T=60.0),
+    # reneging x blocking: a renege frees a place for a customer blocked to that node
+    mk('renege_unblocks', [I(1), I(1)], [seq(1.0, 1.0, 1.0, 1000), None], [det(1.0), det(8.0)], TM([[0.0, 1.0], [0.0, 0.0]]), qcap=[INF, 1],
+       reneging={'C0': [None, det(4.0)]}, tracker='NaiveBlocking', T=40.0),
+    # service disciplines with priorities on a D/D/2 grid; LIFO and SIRO; schedule with several cycles
+    mk('ddc_priorities_lifo', [I(2)], {'A': [det(0.5)], 'B': [det(0.75)]}, {'A': [seq(1.5, 0.5, 2.0)], 'B': [seq(1.0, 2.5)]}, TM([[0.25]]), classes=['A', 'B'],
+       priorities={'A': 1, 'B': 0}, disciplines=['LIFO'], T=40.0, seed=3),
+    mk('schedule_cycles_siro', [SCH([1, 0, 2], [2, 3, 5], offset=0.5)], [det(0.5)], [seq(0.5, 1.5, 1.0)], TM([[0.0]]), disciplines=['SIRO'], T=40.0, seed=5),
+    mk('schedule_preemptive_cycles', [SCH([2, 1, 0], [2, 4, 5], preempt='restart')], {'A': [det(0.75)], 'B': [det(1.0)]}, {'A': [seq(1.5, 2.5)], 'B': [seq(2.0, 0.5)]}, TM([[0.0]]),
+       classes=['A', 'B'], priorities={'A': 0, 'B': 1}, T=40.0, seed=5),
+    mk('slotted_capacitated_preempt', [SLOT([1.0, 2.5, 3.0], [2, 1, 3], cap=True, preempt='resume')], [det(0.5)], [seq(1.25, 2.75, 0.5)], TM([[0.0]]), T=40.0),
+    # capacities: node capacity 0 queue, system capacity, batches, baulking
+    mk('capacity_batches', [I(1), I(2)], [seq(1.0, 0.5), det(2.0)], [det(1.5), det(2.5)], TM([[0.0, 0.5], [0.0, 0.0]]), qcap=[1, 0], syscap=4,
+       batching={'C0': [seq(1, 3, 0, 2), det(2)]}, baulking={'C0': [{'b': 'thresh', 'k': 2}, None]}, T=40.0, seed=2),
+    # reneging with jockeying to another node
+    mk('renege_and_jockey', [I(1), I(1)], [det(1.0), None], [det(3.0), det(0.5)], NR({'k': 'jockey', 'to': 2}, {'k': 'leave'}), reneging={'C0': [det(1.5), None]}, T=30.0),
+    # process-based and flexible process-based routes
+    mk('process_based', [I(1), I(1), I(2)], [det(1.0), None, None], [det(0.5), det(0.75), det(1.0)], {'r': 'pb', 'routes': [[2, 3], [3], [2, 3, 2]]}, T=30.0),
+    mk('flexible_all_jsq', [I(1), I(1), I(1)], [det(1.0), None, None], [det(0.5), det(1.75), det(1.0)], {'r': 'fpb', 'routes': [[[2, 3]], [[3, 2], [1]], [[2]]], 'rule': 'all', 'choice': 'jsq'}, T=30.0),
+    # exact arithmetic with reneging and an idle second server (repaired K5a, K5b)
+    mk('exact_reneging_idle_server', [I(2)], [det(4.0)], [det(1.0)], TM([[0.0]]), reneging={'C0': [det(2.5)]}, exact=14, T=20.0),
+    # stop by customer count
+    mk('count_complete_with_reneging', [I(1)], [det(1.0)], [det(2.5)], TM([[0.0]]), reneging={'C0': [det(2.0)]}, run={'method': 'customers', 'n': 6, 'cmethod': 'Complete', 'T': 0}),
+    mk('count_accept_with_baulking', [I(1)], [det(1.0)], [det(2.5)], TM([[0.0]]), baulking={'C0': [{'b': 'thresh', 'k': 2}]}, run={'method': 'customers', 'n': 6, 'cmethod': 'Accept', 'T': 0}),
+]
 PINNED = {}
 
 
 def count(prop):
-    return len(PINNED.get(prop, []))
+    return len(ALL)
 
 
 def get(prop, k):
-    import copy
-    return copy.deepcopy(PINNED[prop][k])
+    return copy.deepcopy(ALL[k])
